@@ -5,18 +5,19 @@ TRUSTED_BASE = [
     "the hand-written Lean model's reading of the Go code, tied on every run by the differential correspondence streams listed under coverage.correspondence (to the extent of their generators)",
     "harness (Go): generators, canonicalisation, Go-side oracles; compiled Lean driver goatspec (Lean compiler trusted to agree with kernel reduction for the model functions)",
     "GoatSpec/Extracted.lean regenerated from the compiled /repo packages by `vh extract` on every run",
+    "GoatSpec/Walker.lean regenerated from /repo/pkg/tracking/increment.go by the syntactic translator `vh walker` (go/parser; trusted: the translator's reading of type-switch arms, guards, range loops and the four marking calls - it refuses every other construct; GoatSpec/GoAst.lean as the typed mirror of go/ast and of the harness extractor internal/absast); the meaning of the translated IR is defined in Lean (WalkSpec) and Properties/Walker proves it equal to the model's walk equations for every node",
     "GoatSpec/Skeleton.lean regenerated from /repo's Go source by the translator `vh skeleton` (go/packages + go/types; trusted: the translator, its list of file-system mutating primitives, static call resolution - calls through function values are reported as fallible unknowns, reflection/cgo/unsafe are invisible); its summary table is only a hint: the kernel checks that it is a fixed point of the Lean transfer function",
 ]
 
 _INSTR_TRUSTED = ["modelled, not verified: go/parser positions and go/printer re-formatting (A1, A2), astutil import editing (A3); internal/absast extractor (never calls goat functions) is trusted to report node kinds, Walk order and line numbers faithfully"]
 
 PROPS = {
-    "C01": dict(lean=["GoatSpec.Properties.C01", "GoatSpec.Properties.Pools"], streams=["marks-corpus", "marks-stdlib", "marks-gen"], e2e=["track"], trusted=_INSTR_TRUSTED,
+    "C01": dict(lean=["GoatSpec.Properties.C01", "GoatSpec.Properties.Pools", "GoatSpec.Properties.Walker"], streams=["marks-corpus", "marks-stdlib", "marks-gen"], e2e=["track"], trusted=_INSTR_TRUSTED,
                 assumptions=["A1: inserting the 4-line block at a statement boundary of a function body, plus one import, keeps the package compiling"]),
     "C02": dict(lean=["GoatSpec.Properties.C02", "GoatSpec.Properties.Pools"], streams=["marks-corpus", "marks-stdlib", "marks-gen"], e2e=["track"], trusted=_INSTR_TRUSTED,
                 assumptions=["A2: go/printer∘go/parser preserves syntax tree and comments", "A3: astutil.AddNamedImport only edits import declarations"]),
-    "C03": dict(lean=["GoatSpec.Properties.C03"], streams=["marks-corpus", "marks-stdlib", "marks-gen"], e2e=["track"], trusted=_INSTR_TRUSTED, assumptions=[]),
-    "C09": dict(lean=["GoatSpec.Properties.C09", "GoatSpec.Properties.C09Shape"], streams=["marks-corpus", "marks-stdlib", "marks-gen", "diff-exact"], e2e=["track"], trusted=_INSTR_TRUSTED, assumptions=[]),
+    "C03": dict(lean=["GoatSpec.Properties.C03", "GoatSpec.Properties.Walker"], streams=["marks-corpus", "marks-stdlib", "marks-gen"], e2e=["track"], trusted=_INSTR_TRUSTED, assumptions=[]),
+    "C09": dict(lean=["GoatSpec.Properties.C09", "GoatSpec.Properties.C09Shape", "GoatSpec.Properties.Walker"], streams=["marks-corpus", "marks-stdlib", "marks-gen", "diff-exact"], e2e=["track"], trusted=_INSTR_TRUSTED, assumptions=[]),
     "C06": dict(
         lean=["GoatSpec.Properties.C06", "GoatSpec.Properties.Pools"],
         streams=["text-pass-raw", "text-clean-tokens", "text-clean-file"],
